@@ -20,7 +20,7 @@ ASSUMPTIONS = ["no verdict depends on a reply being fast: a slow 'deliver' only 
                "server-side execution counts are read after the server has handled every forwarded request (5 s watchdog, expiry = inconclusive)"]
 REQUIRED_REACH = ["calls_own_reply", "calls_comm_error", "faults_applied", "oneway_calls", "recovered_after_faults", "exactly_once_tokens", "retries_observed", "seq_wraps"]
 SHARD_TIMEOUT = {"quick": 240, "thorough": 3000}
-KINDS = ["echo", "echo", "echo", "boom", "pyroboom", "oneway", "batch", "attr", "stream"]
+KINDS = ["echo", "echo", "echo", "boom", "pyroboom", "oneway", "batch", "attr", "stream", "batchow"]
 
 
 class ServerLog:
@@ -113,6 +113,8 @@ def run_history(fx, slog, rl, rec, r, retries, ncalls, script, sername, hh):
     kinds = []
     nonces = []
     ok = True
+    clean = True       # the previous call met no fault and got its own answer: nothing stale can be in flight
+    del rl.anomalies[:]
     try:
         for ci in range(ncalls):
             kind = r.choice(KINDS)
@@ -137,6 +139,10 @@ def run_history(fx, slog, rl, rec, r, retries, ncalls, script, sername, hh):
                     b = P.client.BatchProxy(p)
                     b.echo(tok)
                     outcome = ("ret", list(b()))
+                elif kind == "batchow":
+                    b = P.client.BatchProxy(p)
+                    b.echo(tok)
+                    outcome = ("ret", b(oneway=True))
                 elif kind == "attr":
                     outcome = ("ret", p.nonce)
                 else:
@@ -163,11 +169,28 @@ def run_history(fx, slog, rl, rec, r, retries, ncalls, script, sername, hh):
                 outcome = ("other", repr(x))
             if p._pyroSeq < seq_before:
                 rec.count("seq_wraps")
+            if kind in ("oneway", "batchow") and outcome and outcome[0] == "ret":
+                # the caller has moved on before the relay handles its request: wait (bounded) until the relay has recorded what it did with it
+                fx.wait_until(lambda: any(a[0] == tok for a in rl.applied[applied_before:]), 2.0)
             faulted = any(a[1] not in ("deliver", "deliver-oneway") for a in rl.applied[applied_before:])
             rec.case((fx.servertype, retries, sername, hh, ci), nontrivial=faulted, sample={"call": kind, "outcome": core.jsonable(outcome), "actions": [a[1] for a in rl.applied[applied_before:]], "retries": retries} if rec.evaluations % 500 == 3 else None)
             rec.count("faults_applied", sum(1 for a in rl.applied[applied_before:] if a[1] not in ("deliver", "deliver-oneway")))
             bad = None
-            if outcome[0] == "comm":
+            if rl.anomalies:
+                bad = ("server-sent-unsolicited-reply", "while serving %s the daemon answered request seq %d with a message carrying seq %d: a reply nobody asked for "
+                       "(e.g. to a oneway request) sits in the stream; earlier calls %r" % (tok, rl.anomalies[0][1], rl.anomalies[0][2], kinds[-4:]))
+            elif outcome[0] == "comm" and clean and not faulted and outcome[1] == "TimeoutError":
+                rec.count("slow_delivery_timeouts")      # a loaded machine may turn a fault-free call into a timeout: allowed, never a verdict
+            elif outcome[0] == "comm" and clean and not faulted:
+                bad = ("fault-free-call-failed", "call %s (%s) failed with %s although no fault was applied to it and the call before it (%s) had completed cleanly" % (
+                    tok, kind, outcome[1], kinds[-2] if len(kinds) > 1 else "-"))
+            if kind in ("oneway", "batchow"):
+                clean = clean and not faulted          # reads no reply: cannot clear what an earlier fault left in the stream
+            else:
+                clean = (not faulted) and outcome[0] in ("ret", "exc")
+            if bad:
+                pass
+            elif outcome[0] == "comm":
                 rec.count("calls_comm_error")
                 if kind == "stream" and len(outcome) > 2:
                     want = [(tok, i) for i in range(3)]
@@ -186,9 +209,9 @@ def run_history(fx, slog, rl, rec, r, retries, ncalls, script, sername, hh):
                     bad = ("foreign-reply-accepted", "call echo(%s) returned %r" % (tok, v))
                 elif kind in ("boom", "pyroboom"):
                     bad = ("foreign-reply-accepted", "call %s(%s) returned %r instead of raising" % (kind, tok, v))
-                elif kind == "oneway":
+                elif kind in ("oneway", "batchow"):
                     if v is not None:
-                        bad = ("oneway-returned-something", "oneway call returned %r" % (v,))
+                        bad = ("oneway-returned-something", "%s call returned %r" % (kind, v))
                     rec.count("oneway_calls")
                 elif kind == "batch" and v != [tok]:
                     bad = ("foreign-reply-accepted", "batch [echo(%s)] returned %r" % (tok, v))
@@ -294,8 +317,6 @@ def run_shard(shard, rec):
     fx, slog = make_env(P, shard["servertype"])
     rl = relay.Relay(fx.location)
     try:
-        if shard["retries"] == 0:
-            rec.count("retries_observed")
         for h in range(shard["histories"]):
             if rec.should_stop(8):
                 break
